@@ -3,15 +3,16 @@ EXTENDS Router
 Lv == {"a", "b", "c", "r:.*", "r:a|b", "r:[^a]"}
 LvAll == Lv \cup {"r:a", "r:c"}
 Pats(L, n) == UNION {[1..k -> L] : k \in 1..n}
-Pats2 == Pats(Lv, 2)
+\* the empty pattern addresses the root key itself (RoutingKeyBuilder{}.build())
+Pats2 == Pats(Lv, 2) \cup {<<>>}
 Pats3 == Pats(Lv, 3)
-Pats2All == Pats(LvAll, 2)
+Pats2All == Pats(LvAll, 2) \cup {<<>>}
 ShrinkSmall == Pats({"a", "b", "r:.*", "r:[^a]"}, 2)
 ShrinkSmall3 == Pats({"a", "b", "r:.*", "r:[^a]"}, 3)
 NamesAB == {"a", "b"}
 \* regex semantics beyond the wildcard: names a / ab against alternations and lazy quantifiers
 NamesRx == {"a", "ab"}
 LvRx == {"ab", "r:a|ab", "r:a.*?", "r:a", "r:.*"}
-PatsRx == Pats(LvRx, 2)
+PatsRx == Pats(LvRx, 2) \cup {<<>>}
 ShrinkRx == Pats({"r:.*", "r:a"}, 2)
 ====
